@@ -463,6 +463,33 @@ def rule_parser(ctx, mod, sh, mean, model):
             bad.append((spelled, a_, short_form, b_))
     ctx.check(not bad, R, "aliases-in-compounds", fi.where(), "from_shorthand(<polychords whose parts use the same alias>) vs the short spellings",
               "%d of %d differ, e.g. %s" % (len(bad), len(pairs), bad[:2]))
+    # (m) a slash chord is the bass followed by the chord, whatever the bass is: also a note of the chord, also its root
+    bad = []
+    slashes = [("C", "C"), ("C", "G"), ("Cm7", "C"), ("Cm7", "Bb"), ("F#", "F#"), ("Bbm", "Bb"), ("Am", "E"), ("G7", "G"), ("Ebdim", "Eb"), ("D6/9", "D")]
+    for chord, bass in slashes:
+        alone, got = verdict(chord), verdict(chord + "/" + bass)
+        want = ("chord", [bass] + alone[1]) if alone[0] == "chord" else alone
+        if got != want:
+            bad.append((chord + "/" + bass, got, "expected", want))
+    ctx.check(not bad, R, "slash.bass-in-chord", fi.where(), "from_shorthand(<chord>/<its root or another of its notes>) for %d texts" % len(slashes),
+              "%d of %d are not the bass followed by the chord, e.g. %s" % (len(bad), len(slashes), bad[:2]))
+    # (n) a list maps element-wise: every text that is a chord alone is that chord inside a list (aliases, slash chords,
+    #     polychords, NC), and a text rejected alone is rejected inside a list
+    members = ["Am7", "Amin7", "A-7", "Cmaj7", "Cma7", "G-", "Dmi", "C/E", "Am|C", "Emin/G|Amin", "NC", "F#dim"]
+    alone = [verdict(t) for t in members]
+    try:
+        paths = _eval_from_shorthand(ctx, fi, model, lambda: [list(members)])
+    except (CannotDecide, nd.Shape) as e:
+        raise AnalysisError("from_shorthand(<list of %d texts>): %s" % (len(members), e))
+    ok = len(paths) == 1 and paths[0].kind == "return" and isinstance(paths[0].value, list) and all(a[0] == "chord" for a in alone) \
+        and [[x if isinstance(x, str) else repr(x) for x in c] if isinstance(c, list) else c for c in paths[0].value] == [a[1] for a in alone]
+    ctx.check(ok, R, "list-input.elementwise", fi.where(), "from_shorthand(%r)" % (members,),
+              "gives %s, element by element the texts alone give %s" % ([(p.kind, short(repr(p.value), 200)) for p in paths], short(repr(alone), 200)))
+    for badtext in ("Cmim", "H7", "C/"):
+        paths = _eval_from_shorthand(ctx, fi, model, lambda: [["Am", badtext]])
+        ok = bool(paths) and all(p.kind == "raise" and p.value in ("FormatError", "NoteFormatError") for p in paths) and verdict(badtext)[0] == "rejected"
+        ctx.check(ok, R, "list-input.rejects[%s]" % badtext, fi.where(), "from_shorthand(['Am', %r])" % badtext,
+                  "gives %s; alone the text gives %s" % ([(p.kind, short(repr(p.value), 80)) for p in paths], verdict(badtext)))
     # slash exemption list == keys containing '/'
     with_slash = sorted(k for k in known if "/" in k)
     for k in with_slash:
